@@ -8,6 +8,7 @@
 #define SPECTRA_BK_LDLT_H
 
 #include <Eigen/Core>
+#include <cmath>
 #include <vector>
 #include <stdexcept>
 #include <type_traits>  // std::is_same
@@ -83,6 +84,7 @@ private:
 
     bool m_computed;
     CompInfo m_info;
+    RealScalar m_scale;  // the factorized matrix is (A - shift * I) / m_scale
 
     // Access to elements
     // Pointer to the k-th column
@@ -532,13 +534,13 @@ private:
 
 public:
     BKLDLT() :
-        m_n(0), m_computed(false), m_info(CompInfo::NotComputed)
+        m_n(0), m_computed(false), m_info(CompInfo::NotComputed), m_scale(1)
     {}
 
     // Factorize mat - shift * I
     template <typename Derived>
     BKLDLT(const Eigen::MatrixBase<Derived>& mat, int uplo = Eigen::Lower, const RealScalar& shift = RealScalar(0)) :
-        m_n(mat.rows()), m_computed(false), m_info(CompInfo::NotComputed)
+        m_n(mat.rows()), m_computed(false), m_info(CompInfo::NotComputed), m_scale(1)
     {
         compute(mat, uplo, shift);
     }
@@ -559,6 +561,21 @@ public:
         m_data.resize((m_n * (m_n + 1)) / 2);
         compute_pointer();
         copy_data(mat, uplo, shift);
+
+        // Scale the matrix so that its largest magnitude is one: the pivoting strategy
+        // compares products of two entries, which underflow or overflow for badly
+        // scaled input. The solution of the scaled system is scaled back in solve_inplace()
+        // (for complex entries the larger of |real| and |imag| is used, since |z| itself may overflow)
+        m_scale = RealScalar(0);
+        for (Index i = 0; i < m_data.size(); i++)
+        {
+            m_scale = (std::max)(m_scale, (std::max)(abs(Eigen::numext::real(m_data[i])), abs(Eigen::numext::imag(m_data[i]))));
+        }
+        // Multiply by the reciprocal: dividing complex numbers by a huge real number may overflow
+        if (m_scale > RealScalar(0) && (std::isfinite)(m_scale) && (std::isfinite)(RealScalar(1) / m_scale))
+            m_data *= (RealScalar(1) / m_scale);
+        else
+            m_scale = RealScalar(1);
 
         const RealScalar alpha = (1.0 + std::sqrt(17.0)) / 8.0;
         m_info = CompInfo::Successful;
@@ -689,6 +706,9 @@ public:
         {
             std::swap(x[m_permc[i].first], x[m_permc[i].second]);
         }
+
+        // 6. The factorized matrix is A / m_scale
+        res *= (RealScalar(1) / m_scale);
     }
 
     Vector solve(ConstGenericVector& b) const
